@@ -286,6 +286,7 @@ func (e *integEngine) installHooks() {
 	})
 	if e.prof.PreemptPct > 0 && preemptPoints > 0 {
 		vsync.Arm(0, 0)
+		vsync.ArmStmt(0, 0)
 		vsync.PreemptHook.Store(e.preemptPark)
 	}
 	if e.prof.LogYield {
@@ -452,6 +453,7 @@ func (e *integEngine) logPark(msg string) {
 
 func (e *integEngine) removeHooks() {
 	vsync.Arm(0, 0)
+	vsync.ArmStmt(0, 0)
 	vsync.PreemptHook.Store((func(string))(nil))
 	vsync.PointHook.Store((func(string))(nil))
 	if e.prof.LogYield {
@@ -1090,6 +1092,9 @@ func (e *integEngine) loop() {
 		if vsync.Armed() > 0 {
 			vsync.Arm(0, 0) // the countdown did not run out before everything blocked again
 		}
+		if vsync.ArmedStmt() > 0 {
+			vsync.ArmStmt(0, 0)
+		}
 		if e.finished {
 			break
 		}
@@ -1166,7 +1171,13 @@ func (e *integEngine) loop() {
 			if prof.PreemptPct > 0 && preemptPoints > 0 && parks[k].Kind != "finish" && c.Ch.Bool(prof.PreemptPct, 100, "preempt") {
 				// the goroutine released now is taken off the processor again at one of its next
 				// function entries inside taskctl's code
-				vsync.Arm(1+c.Ch.Choose(prof.PreemptDepth, "preempt-depth"), parks[k].GID)
+				if stmtPoints > 0 && c.Ch.Bool(1, 2, "preempt-at-statement") {
+					// ... or before one of its next statements (windows a few statements wide)
+					vsync.ArmStmt(1+c.Ch.Choose(prof.PreemptDepth*5, "preempt-stmt-depth"), parks[k].GID)
+					c.Count("preemptions_armed_at_statements")
+				} else {
+					vsync.Arm(1+c.Ch.Choose(prof.PreemptDepth, "preempt-depth"), parks[k].GID)
+				}
 				c.Count("preemptions_armed")
 			}
 			e.releasePark(parks[k])
